@@ -568,8 +568,9 @@ def write_evidence(tier, seed, t0, status, queries=(), verdicts=None, samples=No
         "wall_s": round(time.time() - t0, 1),
         "violations": nviol,
     }
-    os.makedirs(os.path.join(VERIF, "evidence"), exist_ok=True)
-    json.dump(ev, open(os.path.join(VERIF, "evidence", "C16.json"), "w"), indent=1)
+    evdir = os.path.join(VERIF, "evidence") if os.path.realpath(REPO) == "/repo" else os.path.join(VERIF, "out", "evidence-other-tree")
+    os.makedirs(evdir, exist_ok=True)
+    json.dump(ev, open(os.path.join(evdir, "C16.json"), "w"), indent=1)
 
 
 if __name__ == "__main__":
